@@ -302,29 +302,75 @@ func c20(c *an.Ctx) {
 			r.AddSites(1)
 		}
 		if f := fn(r, S+":PKIndexReaderImpl.doBinarySearch"); f != nil {
+			// the probes of the two bisection loops: calls through the function-typed parameter inside
+			// a loop, given a range either as (lo, hi) or as a fragment.NewFragmentRange(lo, hi)
+			// built in the same iteration
 			n := 0
 			ast.Inspect(f.Body, func(m ast.Node) bool {
 				ce, ok := m.(*ast.CallExpr)
-				if !ok || len(ce.Args) != 2 {
+				if !ok {
 					return true
 				}
-				sel, ok := ce.Fun.(*ast.SelectorExpr)
-				if !ok || sel.Sel.Name != "NewFragmentRange" {
+				id, ok := ast.Unparen(ce.Fun).(*ast.Ident)
+				if !ok {
 					return true
+				}
+				pv, _ := f.Info.Uses[id].(*types.Var)
+				isParam := false
+				for _, q := range f.Params {
+					if q == pv && pv != nil {
+						_, isParam = pv.Type().Underlying().(*types.Signature)
+					}
+				}
+				lp := loopOf(f, ce)
+				if !isParam || lp == nil {
+					return true
+				}
+				var lo, hi ast.Expr
+				switch len(ce.Args) {
+				case 2:
+					lo, hi = ce.Args[0], ce.Args[1]
+				case 1:
+					if aid, ok := ast.Unparen(ce.Args[0]).(*ast.Ident); ok {
+						av := f.Info.Uses[aid]
+						ast.Inspect(lp, func(k ast.Node) bool {
+							as, ok := k.(*ast.AssignStmt)
+							if !ok || len(as.Lhs) != 1 || len(as.Rhs) != 1 {
+								return true
+							}
+							lid, ok := as.Lhs[0].(*ast.Ident)
+							if !ok || (f.Info.Defs[lid] != av && f.Info.Uses[lid] != av) {
+								return true
+							}
+							if mk, ok := ast.Unparen(as.Rhs[0]).(*ast.CallExpr); ok && len(mk.Args) == 2 {
+								if cal := an.Callee(f.Info, mk); cal != nil && cal.Name() == "NewFragmentRange" {
+									lo, hi = mk.Args[0], mk.Args[1]
+								}
+							}
+							return true
+						})
+					} else if mk, ok := ast.Unparen(ce.Args[0]).(*ast.CallExpr); ok && len(mk.Args) == 2 {
+						if cal := an.Callee(f.Info, mk); cal != nil && cal.Name() == "NewFragmentRange" {
+							lo, hi = mk.Args[0], mk.Args[1]
+						}
+					}
 				}
 				n++
-				a0, a1 := f.Canon(ce.Args[0]), f.Canon(ce.Args[1])
-				prefix := a0 == "0"
-				suffix := a1 == "p0"
+				if lo == nil || hi == nil {
+					r.Fail("doBinarySearch: probe "+types.ExprString(ce), c.P.Pos(ce.Pos()), "the fragment range of the bisection probe %s cannot be determined (expected (lo, hi) or a NewFragmentRange(lo, hi) built in the same iteration)", types.ExprString(ce))
+					return true
+				}
+				prefix := f.Canon(lo) == "0"
+				suffix := f.Canon(hi) == "p0"
 				if !prefix && !suffix {
-					r.Fail("doBinarySearch: probe ["+types.ExprString(ce.Args[0])+", "+types.ExprString(ce.Args[1])+")", c.P.Pos(ce.Pos()),
-						"doBinarySearch probes the fragment range [%s, %s), which is neither a prefix [0, m) nor a suffix [m, fragmentCount): bisection on a single fragment is only right when the matching fragments are contiguous (a = 'A' OR a = 'G' loses every match right of the first gap)", types.ExprString(ce.Args[0]), types.ExprString(ce.Args[1]))
+					r.Fail("doBinarySearch: probe ["+types.ExprString(lo)+", "+types.ExprString(hi)+")", c.P.Pos(ce.Pos()),
+						"doBinarySearch probes the fragment range [%s, %s), which is neither a prefix [0, m) nor a suffix [m, fragmentCount): bisection on a single fragment is only right when the matching fragments are contiguous (a = 'A' OR a = 'G' loses every match right of the first gap)", types.ExprString(lo), types.ExprString(hi))
 				}
 				return true
 			})
 			r.AddSites(n)
-			if n < 3 {
-				r.Fail("doBinarySearch: probes", c.P.Pos(f.Body.Pos()), "expected the three probe ranges of the bisection, found %d", n)
+			if n < 2 {
+				r.Fail("doBinarySearch: probes", c.P.Pos(f.Body.Pos()), "expected the probes of the two bisection loops (left boundary, right boundary), found %d", n)
 			}
 		}
 	}
